@@ -1,4 +1,5 @@
 //! vcore: reference model, generators, monitors and property oracles for the rl2tp checks.
+pub mod capture;
 pub mod cx;
 pub mod gen;
 pub mod glue;
